@@ -191,3 +191,64 @@ func directedRefinements(cx *lib.Ctx) {
 		res.Case(canon, compared > 0)
 	}
 }
+
+// directedKnown: the converse half of the property on constructs the random stream rarely builds with the
+// operands that matter: calls whose final argument is expanded (`f(xs...)`) over every kind of known value —
+// typed and untyped nulls, empty and non-empty tuples / lists / sets — template directives over known
+// collections, splats over nulls.  The scope has no unknown value; an error-free result must be wholly known.
+func directedKnown(cx *lib.Ctx) {
+	res := cx.Res
+	scope := evalgen.Scope{
+		"nul":   cty.NullVal(cty.DynamicPseudoType),
+		"nlist": cty.NullVal(cty.List(cty.String)),
+		"ntup":  cty.NullVal(cty.EmptyTuple),
+		"nset":  cty.NullVal(cty.Set(cty.String)),
+		"nstr":  cty.NullVal(cty.String),
+		"elist": cty.ListValEmpty(cty.String),
+		"etup":  cty.EmptyTupleVal,
+		"lst":   cty.ListVal([]cty.Value{cty.StringVal("a"), cty.StringVal("b")}),
+		"tup":   cty.TupleVal([]cty.Value{cty.StringVal("a"), cty.NumberIntVal(2)}),
+		"st":    cty.SetVal([]cty.Value{cty.StringVal("a")}),
+		"s":     cty.StringVal("x"),
+		"obj":   cty.ObjectVal(map[string]cty.Value{"a": cty.NullVal(cty.String), "b": cty.StringVal("y")}),
+	}
+	args := []string{"null", "nul", "nlist", "ntup", "nset", "nstr", "elist", "etup", "lst", "tup", "st", "[]", "[s]", "[s, nstr]", "obj", "s"}
+	var srcs []string
+	for _, f := range []string{"coalesce", "concat", "length", "upper", "max", "tolist", "join"} {
+		for _, a := range args {
+			srcs = append(srcs, f+"("+a+"...)", f+"(\"a\", "+a+"...)", f+"(lst, "+a+"...)")
+		}
+	}
+	for _, a := range args {
+		srcs = append(srcs,
+			"\"%{ for x in "+a+" }${x},%{ endfor }\"",
+			"\"%{ if "+a+" == null }n%{ else }y%{ endif }\"",
+			a+"[*]", a+".*.a", "[for x in "+a+" : x]", "{for k, v in "+a+" : k => v}",
+			a+" == null ? s : "+a, "true ? "+a+" : s")
+	}
+	for _, src := range srcs {
+		e, diags := evalgen.Parse(src)
+		if diags.HasErrors() {
+			res.Count("directed-known:parse-error")
+			continue
+		}
+		c := &evalgen.Case{Scope: scope, Src: src, Expr: e}
+		v, d, p := evalgen.SafeValue(e, evalgen.Ctx(scope))
+		res.Count("directed-known:cases")
+		res.Case("directed-known|"+src, true)
+		if p != "" {
+			cx.Res.Fail(lib.Failure{Kind: "oracle", Key: "panic:eval", Desc: "panic during evaluation: " + p, Input: c.Encode("C05", "expr", nil)})
+			continue
+		}
+		if d.HasErrors() {
+			res.Count("directed-known:error")
+			continue
+		}
+		u, _ := v.UnmarkDeep()
+		if !u.IsWhollyKnown() {
+			cx.Res.Fail(lib.Failure{Kind: "oracle", Key: "unknown-from-known:directed:" + src,
+				Desc:  "an error-free evaluation in a scope without unknown values produced an unknown value",
+				Input: c.Encode("C05", "expr", nil), Impl: lib.DumpValue(v)})
+		}
+	}
+}
